@@ -55,7 +55,7 @@ THEOREMS = ["Wtf.C16." + t for t in (
 
 ASSERTIONS = ["history:NewSearchHistory", "history:new-default", "history:new-stores-maxsize", "history:Load",
               "history:Load-decodes-into-fresh-value", "history:Load-receiver-untouched-before-error-check",
-              "history:Load-max-size-shape", "history:AddEntry", "history:cli-max-size-literals"]
+              "history:Load-max-size-shape", "history:AddEntry", "history:cli-max-size-literals", "history:view-default"]
 
 
 def nontrivial(tags, ops, impl):
